@@ -941,8 +941,8 @@ struct Budget {
 
 fn budget(tier: Tier) -> Budget {
     match tier {
-        Tier::Quick => Budget { runs: 24000 },
-        Tier::Thorough => Budget { runs: 1600000 },
+        Tier::Quick => Budget { runs: driver::scale(24000) },
+        Tier::Thorough => Budget { runs: driver::scale(1600000) },
     }
 }
 
